@@ -51,7 +51,9 @@ Qed.
 Inductive err :=
 | EInsufficient | ENegative | EUnauthorized | EZeroAmount | ESameUser | EFeeAddr
 | EFeeCurrency | ELimits | ENoRate | EIssuerOp | EFeeTooBig | EBadLimits | ERateZero
-| ECurrencyIsToken | EExists | ENotFound | EBadArg | EOther.
+| ECurrencyIsToken | EExists | ENotFound | EBadArg | EOther
+| EArgs | ENotSigned | EName | EAcl | EBlack | EGrey | EBadSig | EBadNonce | EDisabled | ENoMethod | ENoConfig
+| ECommitted | ENotCommitted | EChannel | EToken | EBadKey | ETimeout | EPanic.
 Global Instance err_eq_dec : EqDecision err.
 Proof. solve_decision. Defined.
 
